@@ -21,9 +21,9 @@ EXPLANATION = ("Theorems: the hash join equals the nested-loop join as lists; co
                "Lexing (characters to tokens), planning and the relational composition are tied by correspondence.")
 ASSUMPTIONS = [
     "re.search for ~ and !~ is an oracle table computed with the real engine for the (pattern, value) pairs of the case",
-    "date operands and float columns are outside the Coq model of the evaluator (the date reader itself is modelled "
-    "and proved under C08); conditions with date literals in every spelling of the query grammar, selections over a "
-    ":date column and literal/column type mismatches are decided by the oracle on every run",
+    "date operands: the model's date literal carries the instant that tsdb.cast makes of the literal's text (the date "
+    "reader is modelled and proved under C08); stored date fields are read by that model; float columns are outside "
+    "the model",
     "identifiers do not start with a TSQL keyword (the lexer matches keywords as prefixes: `origin` lexes as or+igin)",
     "Python iterates a set when adding key columns of relations that have no projected or condition column; the "
     "model is exact when at most one such relation (a pivot) exists — the generator respects this",
@@ -172,9 +172,19 @@ def _gen_dcond(rng, depth):
     return ["not", t], "(not %s)" % x
 
 
-D_MISMATCH = ['i-date == 3', 'i-date == "abc"', 'i-date < 3', 'i-id == 2018-1-15', 'i-input == 2018-1-15',
-              'i-id < 15-jan-2018', 'i-input != jan-2018', 'i-id == 10 and i-date == "2018-1-15"',
-              'not i-date == 20180115', 'i-id >= 0 or i-input == 1-2018']
+_D15 = [2018, 1, 15, 0, 0, 0]
+_D1 = [2018, 1, 1, 0, 0, 0]
+D_MISMATCH = [('i-date == 3', ["cmp", "==", "i-date", 3]),
+              ('i-date == "abc"', ["cmp", "==", "i-date", "abc"]),
+              ('i-date < 3', ["cmp", "<", "i-date", 3]),
+              ('i-id == 2018-1-15', ["cmp", "==", "i-id", _D15]),
+              ('i-input == 2018-1-15', ["cmp", "==", "i-input", _D15]),
+              ('i-id < 15-jan-2018', ["cmp", "<", "i-id", _D15]),
+              ('i-input != jan-2018', ["cmp", "!=", "i-input", _D1]),
+              ('i-id == 10 and i-date == "2018-1-15"',
+               ["and", [["cmp", "==", "i-id", 10], ["cmp", "==", "i-date", "2018-1-15"]]]),
+              ('not i-date == 20180115', ["not", ["cmp", "==", "i-date", 20180115]]),
+              ('i-id >= 0 or i-input == 1-2018', ["or", [["cmp", ">=", "i-id", 0], ["cmp", "==", "i-input", _D1]]])]
 
 
 def _gen_dselect(rng):
@@ -186,7 +196,8 @@ def _gen_dselect(rng):
     rng.shuffle(rows)
     proj = rng.sample(["i-id", "i-input", "i-date"], rng.randrange(1, 4))
     if rng.random() < 0.15:
-        return {"k": "dselect", "rows": rows, "proj": proj, "tree": None, "text": rng.choice(D_MISMATCH), "bad": True}
+        text, tree = rng.choice(D_MISMATCH)
+        return {"k": "dselect", "rows": rows, "proj": proj, "tree": tree, "text": text, "bad": True}
     t, x = _gen_dcond(rng, 2)
     return {"k": "dselect", "rows": rows, "proj": proj, "tree": t, "text": x, "bad": False}
 
@@ -675,6 +686,8 @@ DT = {":integer": "TInt", ":string": "TStr", ":float": "TFloat", ":date": "TDate
 
 
 def _lit(v):
+    if isinstance(v, list):          # an instant: [year, month, day, hour, minute, second]
+        return app("LDate", "{| dy := %d; dmo := %d; dd := %d; dh := %d; dmi := %d; TsdbDate.ds := %d |}" % tuple(v))
     return app("LInt", cZ(v)) if isinstance(v, int) else app("LStr", cstr(v))
 
 
@@ -737,8 +750,33 @@ def _oracle_table(c):
 
 
 def coq_case(c, o):
-    if c["k"] in ("dprinted", "dselect"):
-        return None                      # dates are decided by the oracle (no date model)
+    if c["k"] == "dprinted":
+        if "cond" not in o:
+            return app("CPrinted", _cond(c["tree"]), "None")
+        return app("CPrinted", _cond(c["tree"]), "(Some %s)" % _cond(o["cond"]))
+    if c["k"] == "dselect":
+        if any(ord(ch) > 127 for r in c["rows"] for ch in (r[1] or "")):
+            return None                  # the date model is ASCII; the other fields of these rows are too
+        pats = set()
+
+        def walk(t):
+            if t[0] == "cmp":
+                if t[1] in ("~", "!~") and isinstance(t[3], str):
+                    pats.add(t[3])
+            elif t[0] == "not":
+                walk(t[1])
+            else:
+                for x in t[1]:
+                    walk(x)
+        walk(c["tree"])
+        vals = sorted(set(r[1] for r in c["rows"] if r[1]))
+        table = [(pt, v, bool(re.search(pt, v))) for pt in sorted(pats) for v in vals]
+        obs = "None" if "err" in o else "(Some %s)" % clist(
+            o["rows"], lambda row: clist(row, lambda v: copt(v, cstr)))
+        return app("CSelect", _db(_d_db(c)),
+                   clist(table, lambda e: "(%s, %s, %s)" % (cstr(e[0]), cstr(e[1]), cbool(e[2]))),
+                   cbool(False), clist(c["proj"], cstr), clist([], cstr),
+                   copt(c["tree"], _cond), cbool(True), obs)
     if "exc" in o:
         raise ValueError("harness")
     if c["k"] == "printed":
